@@ -516,22 +516,5 @@ theorem shift_ok : create "n1[0-1]".toList = .ok [{ pfx := "n1".toList, lo := 0,
 theorem nthC_needs_WF : nthC [{ pfx := "n".toList, lo := 5, hi := 3, width := 1, single := false }] 0 = some "n5".toList
     ∧ expand [{ pfx := "n".toList, lo := 5, hi := 3, width := 1, single := false }] = [] := by decide +kernel
 
-#print axioms pushHost_HWFS
-#print axioms deleteHost_HWFS
-#print axioms create_HWFS
-#print axioms expand_foldl_pushHost
-#print axioms count_expand
-#print axioms nthC_spec
-#print axioms parseNat_fmtNum
-#print axioms deleteNth_expand
-#print axioms find_complete
-#print axioms deleteHost_expand
-#print axioms find_pushed
-#print axioms deleteHost_pushed
-#print axioms find_built
-#print axioms deleteHost_built
-#print axioms f10_create
-#print axioms f10_find
-#print axioms nthC_needs_WF
 
 end Pm
